@@ -23,4 +23,5 @@ INVARIANT TypeOK
 INVARIANT NeverStale
 INVARIANT QueryTotal
 INVARIANT CleanMeansCurrent
+INVARIANT SuiteCleanMeansCurrent
 CONSTRAINT Bound
